@@ -3,5 +3,6 @@ CONSTANTS
   Family = "M3"
   RndN = 5
   RndK = 8
+  Grows = FALSE
 INVARIANT Emit
 CHECK_DEADLOCK FALSE
